@@ -358,7 +358,15 @@ func (dec *xmlReader) Struct(tag int, f func(reader) error) error {
 	if err := f(&subDec); err != nil {
 		return err
 	}
+	// Skip the values left unread by f.
 	for subDec.elem != nil {
+		if subDec.Type() == TypeStructure {
+			// Next() steps into a structure: the content of an unread one must be skipped
+			// first, or its end tag would be taken for the end of the structure being read.
+			if err := subDec.r.Skip(); err != nil {
+				return err
+			}
+		}
 		if err := subDec.Next(); err != nil {
 			return err
 		}
